@@ -195,6 +195,77 @@ func (g *gen) nested(depth int) core.Value {
 	return v
 }
 
+func clipS(s string, n int) string {
+	if len(s) > n {
+		return s[:n] + "..."
+	}
+	return s
+}
+
+// staleSerialisation: the bytes are a function of the value's content.  Serialise a private
+// deep copy (and an array around it), change a container nested in it in place, serialise
+// again: both must equal the serialisation of freshly built equal values.
+func staleSerialisation(v core.Value) string {
+	cl, ok := v.(core.Cloneable)
+	if !ok {
+		return ""
+	}
+	var ft feature
+	features(v, &ft)
+	if ft.invalidUTF8 {
+		return "" // member order among keys that are not valid UTF-8 is not canonical (only validity is required there)
+	}
+	c := cl.Clone()
+	outer := values.NewArrayWith(c)
+	if _, failed, _ := safeMarshal(c); failed {
+		return ""
+	}
+	safeMarshal(outer)
+	_ = c.String()
+	var inner core.Value
+	pick := func(x core.Value) {
+		if inner != nil {
+			return
+		}
+		switch x.(type) {
+		case *values.Array, *values.Object:
+			inner = x
+		}
+	}
+	switch cv := c.(type) {
+	case *values.Array:
+		cv.ForEach(func(x core.Value, _ int) bool { pick(x); return true })
+	case *values.Object:
+		cv.ForEach(func(x core.Value, _ string) bool { pick(x); return true })
+	}
+	switch iv := inner.(type) {
+	case *values.Array:
+		iv.Push(values.NewString("__nested"))
+	case *values.Object:
+		iv.Set(values.NewString("__nested"), values.NewInt(1))
+	default:
+		return ""
+	}
+	b1, f1, _ := safeMarshal(c)
+	o1, f2, _ := safeMarshal(outer)
+	fresh := c.(core.Cloneable).Clone()
+	b2, f3, _ := safeMarshal(fresh)
+	o2, f4, _ := safeMarshal(values.NewArrayWith(fresh))
+	if f1 || f2 || f3 || f4 {
+		return ""
+	}
+	if string(b1) != string(b2) {
+		return fmt.Sprintf("got %s, a freshly built equal value gives %s", clipS(string(b1), 120), clipS(string(b2), 120))
+	}
+	if string(o1) != string(o2) {
+		return fmt.Sprintf("the array around it gives %s, a freshly built one %s", clipS(string(o1), 120), clipS(string(o2), 120))
+	}
+	if c.String() != fresh.String() {
+		return "String() differs from that of a freshly built equal value"
+	}
+	return ""
+}
+
 // plainNested: depth levels of containers (arrays and objects alternating, ASCII
 // keys) around an integer, so that "parses back to the value" is decisive
 func plainNested(depth int) core.Value {
@@ -467,6 +538,9 @@ func run(out, tier string, seed int64) {
 		rendered := CoqValue(v)
 		b1, failed1, note1 := safeMarshal(v)
 		m.Evaluations++
+		if why := staleSerialisation(v); why != "" {
+			direct = append(direct, map[string]interface{}{"key": "stale|" + rendered, "what": "serialising " + clipS(rendered, 200) + ", changing a container nested in it in place and serialising again: " + why, "kinds": []string{KindOf(v)}, "tags": []string{"stale-serialisation"}})
+		}
 		if strings.HasPrefix(note1, "panic") {
 			direct = append(direct, map[string]interface{}{"key": "panic|" + rendered, "what": "MarshalJSON panics on " + rendered + ": " + note1, "kinds": []string{KindOf(v)}})
 		}
